@@ -20,7 +20,10 @@ pub struct Case {
 
 pub fn decode(tape: &[u16]) -> Case {
     let mut t = Tape::new(tape);
-    let enc = crate::gens::input::pick_encoding(&mut t, true);
+    // one case in three: a structured document (nested islands, integration points, CDATA,
+    // breakout tags, raw-text elements are frequent there and rare in soup), UTF-8 only
+    let use_doc = t.chance(1, 3);
+    let enc = if use_doc { encoding_rs::UTF_8 } else { crate::gens::input::pick_encoding(&mut t, true) };
     let mut h = Cfg { encoding: enc, ..Cfg::default() };
     h.strict = t.chance(1, 4);
     h.esi = t.chance(1, 4);
@@ -44,8 +47,12 @@ pub fn decode(tape: &[u16]) -> Case {
         obs.push(o);
     }
     let spec = sched_spec(&mut t);
-    let input = input_in(&mut t, &InputOpts { max_frags: 18, safe_only: true, ..Default::default() }, enc);
-    let input = crate::gens::input::maybe_long(&mut t, input, 12);
+    let input = if use_doc {
+        crate::gens::doc::doc(&mut t, &crate::gens::doc::DocOpts { max_items: 10, bogus_cdata_in_ip: true, ..Default::default() }).bytes
+    } else {
+        let input = input_in(&mut t, &InputOpts { max_frags: 18, safe_only: true, ..Default::default() }, enc);
+        crate::gens::input::maybe_long(&mut t, input, 12)
+    };
     let cuts = spec.resolve(input.len());
     Case { input, cuts, h, observers: obs }
 }
@@ -134,7 +141,7 @@ impl Prop for C06 {
         "C06"
     }
     fn rule(&self) -> String {
-        "case = (input, schedule, handler set H (observers and/or mutators), 1-3 supersets H+O with O observer-only); oracle: sink bytes and the normalised events of H's handlers identical in H and every H+O. non-trivial = H leaves the parser in tag-scan mode for some tags (no document-level token handlers, no '*' selector) while O forces lexing, AND the input has a text-mode element, foreign content or CDATA; distinct by hash(input,H,O)".into()
+        "case = (input [2/3 soup in one of 36 encodings, 1/3 structured UTF-8 document with nested foreign islands, integration points, CDATA, breakout tags, raw text], schedule, handler set H (observers and/or mutators), 1-3 supersets H+O with O observer-only); oracle: sink bytes and the normalised events of H's handlers identical in H and every H+O. non-trivial = H leaves the parser in tag-scan mode for some tags (no document-level token handlers, no '*' selector) while O forces lexing, AND the input has a text-mode element, foreign content or CDATA; distinct by hash(input,H,O)".into()
     }
     fn assumptions(&self) -> Vec<String> {
         vec!["inputs are valid in their encoding and use only characters without ASCII trail bytes, so that adding a text observer cannot legitimately normalise bytes (the C01 exception)".into()]
